@@ -76,6 +76,19 @@ def cases(tier):
             for du in ('1', '2f'):
                 for wall in ('none', 'flow'):
                     out.append(dict(base, ducts=du, wall=wall, coolant=cool, re='lam', dT=250.0))
+        for cool in ('sodium', 'lead', 'lbe', 'nak'):
+            for ps in (None, 10.0):
+                for wall in ('none', 'flow'):
+                    out.append(dict(base, wall=wall, coolant=cool, re='lam', dT=200.0, pscale=ps))
+        # correlation-update tolerance on (constant and tabulated coolant)
+        for cool in (None, 'sodium'):
+            for du in ('1', '2f'):
+                for re in ('lam', 'turb'):
+                    out.append(dict(base, ducts=du, wall='none', re=re, tol=0.05, coolant=cool, dT=150.0))
+        # cores without pin bundles: gap corner cells between three assemblies limit the gap step
+        for st in ('lf-simple', 'lf-6node'):
+            for gf in (0.01, 0.05):
+                out.append(dict(base, structure=st, core=7, wall='flow', gapfrac=gf, re='trans'))
     else:
         for d in ('d2', 'd3', 'd4', 'b3', 'd5'):
             fams = c01.FAMS_BARE if d == 'b3' else c01.FAMS_WIRE
@@ -117,10 +130,32 @@ def cases(tier):
                             f = c01.FAMS_BARE[0] if d == 'b3' else fam
                             out.append(dict(base, design=d, ducts=du, wall=wall, coolant='sodium',
                                             re=re, dT=250.0, fam=list(f), tol=tol))
+    if tier == 'thorough':
+        for cool in ('sodium', 'lead', 'lbe', 'nak', 'bismuth'):
+            for ps in (None, 10.0, 0.2):
+                for wall in ('none', 'flow'):
+                    for re in ('lam', 'trans', 'turb'):
+                        for du in ('1', '2f'):
+                            out.append(dict(base, ducts=du, wall=wall, coolant=cool, re=re, dT=200.0, pscale=ps))
+        for cool in (None, 'sodium', 'lead'):
+            for du in ('1', '2f', '3'):
+                for re in ('lam', 'trans', 'turb'):
+                    for tol in (0.01, 0.05, 0.2):
+                        for wall in ('none', 'flow'):
+                            out.append(dict(base, ducts=du, wall=wall, re=re, tol=tol, coolant=cool, dT=150.0))
+        for st in ('lf-simple', 'lf-6node'):
+            for gf in (0.002, 0.01, 0.05, 0.2):
+                for re in ('lam', 'trans', 'turb'):
+                    for cf in (1.0, 0.3):
+                        out.append(dict(base, structure=st, core=7, wall='flow', gapfrac=gf, re=re, cf=cf))
     for c in out:
         c.setdefault('power', 'asym')
         c['L'] = 0.012
     return out
+
+
+# heat capacity near 720 K of the tabulated coolants (dassh.Material look-up, only used to size the power)
+CP_COOL = {'lead': 145.9, 'lbe': 142.0, 'nak': 887.0, 'bismuth': 137.0}
 
 
 def build(c, power):
@@ -132,6 +167,16 @@ def build(c, power):
         scn['types']['A']['bypass_gap_flow_fraction'] = 0.5
     if c.get('cf') == 'calculate':
         scn['types']['A']['convection_factor'] = 'calculate'
+    cool = c.get('coolant')
+    if cool in CP_COOL:
+        # c01.build_scn sizes the power for sodium (cp = 1272 J/kg/K): same temperature rise for this coolant
+        for spec in scn['power']['asm'].values():
+            spec['q'] *= CP_COOL[cool] / 1272.0
+    if c.get('pscale'):
+        # the same physical power, written as 1/pscale of it times power_scaling_factor = pscale
+        for spec in scn['power']['asm'].values():
+            spec['q'] /= c['pscale']
+        scn['power']['scaling'] = c['pscale']
     if c.get('core', 1) == 7:
         a0 = scn['assign'][0]
         flow = a0[3]['flowrate']
@@ -278,7 +323,8 @@ def run_case(c):
     r = new_result()
     V = r['violations']
     extra = {'limiter_selected': {}, 'limiter_own': {}, 'probes': 0}
-    scn = build(c, 'zero')
+    # temperature-dependent coolant: DASSH selects the step for the inlet..outlet range of the REAL power
+    scn = build(c, c.get('power', 'asym') if c.get('coolant') else 'zero')
     with S.Built(scn) as b:
         try:
             rx = b.reactor()
@@ -295,9 +341,16 @@ def run_case(c):
         extra['limiter_selected'][codes[k].split('-')[0] if codes[k] != 'X-XXX' else 'X'] = 1
         adi = bool(rx._is_adiabatic)
         temps = [None]
-        if c.get('coolant') == 'sodium':
-            tout = max(float(a._estimated_T_out) for a in rx.assemblies)
-            temps = [T0, 0.5 * (T0 + tout), tout]
+        temps_gap = [None]
+        if c.get('coolant'):
+            # the harness's own range: the power is sized for a mixed-mean rise of c['dT'] (pins alone; duct and
+            # coolant heating add to it), so inlet .. inlet + 0.95 dT lies inside the real range
+            rise = 0.95 * float(c.get('dT', 120.0))
+            temps = [T0, T0 + 0.5 * rise, T0 + rise]
+            # the gap: up to the core-average outlet (power over assembly + gap flow), the range DASSH
+            # evaluates the gap limit over
+            rg = rise * (1.0 - float(scn['core'].get('bypass_fraction') or 0.0))
+            temps_gap = [T0, T0 + 0.5 * rg, T0 + rg]
         info = {'dz_sel': dz_sel, 'limiters': codes, 'self_min': {}}
         for ai, a in enumerate(rx.assemblies):
             if ai > 0 and c.get('core', 1) == 7 and ai not in (2, 4):
@@ -346,7 +399,7 @@ def run_case(c):
             for dz, tag in ((dz_sel, 'selected'), (own, 'own')):
                 if tag == 'own' and (abs(own - dz_sel) < 1e-15 or rx.core.model != 'flow'):
                     continue
-                for Tp in temps:
+                for Tp in temps_gap:
                     y0, A, n, pad = probe_gap(rx.core, dz, T0, Tp)
                     what = 'gap(%s)@%s' % (rx.core.model, tag)
                     inf = judge(dict(c, probe_dz=tag), V, what, y0, A, T0)
